@@ -5,6 +5,7 @@ prefixes with iterative deviation bounding.
 from __future__ import annotations
 
 import logging
+import json
 import os
 import pickle
 import select
@@ -169,10 +170,14 @@ def _dfs(build, spec, stack, report, budget):
             break
         prefix = stack.pop()
         report(("hb", len(prefix)))
+        # nothing of the previous execution may be alive while the next one runs (its log
+        # refers to exceptions, hence frames, hence services of that execution)
+        scenario = ex = verdict = None
         scenario = build(spec)
         ex = run_execution(scenario, prefix, opts)
         if ex.diverged:
             for _retry in range(3):
+                scenario = ex = None
                 scenario = build(spec)
                 ex = run_execution(scenario, prefix, opts)
                 if not ex.diverged:
@@ -192,6 +197,11 @@ def _dfs(build, spec, stack, report, budget):
         if ex.diverged:
             stats["diverged"] += 1
             contaminated = True
+            if os.environ.get("VERIF_DIVERGE_LOG"):
+                with open(os.environ["VERIF_DIVERGE_LOG"], "a") as stream:
+                    stream.write(json.dumps({"params": spec["params"], "prefix": prefix,
+                                             "opts": opts, "errors": ex.errors[:3]},
+                                            default=repr) + "\n")
             continue
         infra = [e for e in ex.errors if not e.startswith("REPLAY-DIVERGENCE")]
         if infra:
@@ -323,14 +333,33 @@ def _load_builder(spec):
     return getattr(module, spec.get("builder", "build"))
 
 
+def _warm_up(build, spec):
+    """One discarded execution of the default schedule in a fresh process.
+
+    The first execution of a process differs from later ones in ways that are not the
+    implementation's behaviour (modules imported lazily, byte code compiled, caches of
+    entry points filled: more or fewer lock operations).  Every choice prefix is recorded
+    and replayed in warmed-up processes only."""
+    report = None
+    try:
+        scenario = build(spec)
+        run_execution(scenario, [], spec["opts"])
+    except BaseException:  # noqa: B036 - only a warm-up; the real executions report
+        pass
+    return report
+
+
 def _dfs_child(arg, report):
     spec, stack, budget = arg
-    return _dfs(_load_builder(spec), spec, stack, report, budget)
+    build = _load_builder(spec)
+    _warm_up(build, spec)
+    return _dfs(build, spec, stack, report, budget)
 
 
 def _replay_child(arg, report):
     spec, choices = arg
     build = _load_builder(spec)
+    _warm_up(build, spec)
     scenario = build(spec)
     ex = run_execution(scenario, choices, spec["opts"])
     if ex.diverged:
@@ -389,6 +418,7 @@ def replay_choices(spec, choices):
 def _replay_detail_child(arg, report):
     spec, choices = arg
     build = _load_builder(spec)
+    _warm_up(build, spec)
     scenario = build(spec)
     ex = run_execution(scenario, choices, spec["opts"])
     if ex.diverged:
